@@ -3,6 +3,8 @@ package chlog
 import (
 	"fmt"
 	"math/rand"
+	"strconv"
+	"strings"
 	"time"
 
 	"github.com/cube2222/octosql/aggregates"
@@ -69,6 +71,96 @@ func poolTKV(rng *rand.Rand) [][]octosql.Value {
 	return distinctPool(rng, func() []octosql.Value {
 		return []octosql.Value{octosql.NewTime(time.Time{}), str(keys[rng.Intn(nk)]), intOrNull(rng, 20, 3)}
 	})
+}
+
+// Group-by value domain: small ints around zero (so that sums cross and hit zero while the group is
+// non-empty) and NULL (so that "every input is NULL" and "the inputs sum to 0" both occur).
+func gbValue(rng *rand.Rand) octosql.Value {
+	if rng.Intn(100) < 25 {
+		return null
+	}
+	return num(rng.Intn(5) - 2)
+}
+
+// poolGB: rows [k String, v in {-2..2}|NULL] over few keys.
+func poolGB(rng *rand.Rand) [][]octosql.Value {
+	nk := 1 + rng.Intn(2)
+	return distinctPool(rng, func() []octosql.Value { return []octosql.Value{str(keys[rng.Intn(nk)]), gbValue(rng)} })
+}
+
+// poolTGB: rows [t Time (filled in by the generator), k String, v in {-2..2}|NULL].
+func poolTGB(rng *rand.Rand) [][]octosql.Value {
+	nk := 1 + rng.Intn(2)
+	return distinctPool(rng, func() []octosql.Value {
+		return []octosql.Value{octosql.NewTime(time.Time{}), str(keys[rng.Intn(nk)]), gbValue(rng)}
+	})
+}
+
+// indexOfID parses the case index out of "<kind>#<index>" (-1 if absent).
+func indexOfID(id string) int {
+	i := strings.LastIndexByte(id, '#')
+	if i < 0 {
+		return -1
+	}
+	n, err := strconv.Atoi(id[i+1:])
+	if err != nil {
+		return -1
+	}
+	return n
+}
+
+// fixedGroupBy: the first cases of every group-by kind are fixed scripts (in every tier and seed):
+// a non-empty group whose inputs total exactly 0 ({5,-2,-3}; {0}; {5,7,-5} after 7 is retracted;
+// {1,-1} next to an all-NULL group), a group of NULLs only, a group emptied and refilled.
+// step: +k,v  |  -k,v  |  nil v = NULL. Returns nil beyond the last fixed script.
+func fixedGroupBy(idx int, timed bool) []nodeh.Event {
+	type st struct {
+		retr bool
+		k    string
+		v    interface{}
+	}
+	scripts := [][]st{
+		{{false, "a", 5}, {false, "a", -2}, {false, "a", -3}},
+		{{false, "a", 0}},
+		{{false, "a", 5}, {false, "a", 7}, {false, "a", -5}, {true, "a", 7}},
+		{{false, "a", 1}, {false, "a", -1}, {false, "b", nil}},
+		{{false, "a", nil}, {false, "a", nil}, {false, "b", 0}, {false, "b", 0}},
+		{{false, "a", 2}, {true, "a", 2}, {false, "a", -1}, {false, "a", 1}, {false, "b", 3}, {false, "b", nil}, {true, "b", 3}},
+		{{false, "a", 2}, {false, "a", -2}, {false, "a", nil}, {true, "a", nil}, {false, "b", -1}, {false, "b", -1}, {false, "b", 2}},
+		{{false, "a", 1}, {false, "a", 1}, {false, "a", -2}, {false, "a", 3}, {true, "a", 3}, {false, "a", nil}},
+	}
+	if idx < 0 || idx >= 2*len(scripts) {
+		return nil
+	}
+	withWM := idx >= len(scripts) // second round: the same scripts followed by a watermark
+	sc := scripts[idx%len(scripts)]
+	var evs []nodeh.Event
+	for _, s := range sc {
+		v := null
+		if n, ok := s.v.(int); ok {
+			v = num(n)
+		}
+		row := []octosql.Value{str(s.k), v}
+		if timed {
+			row = append([]octosql.Value{octosql.NewTime(TS(1))}, row...)
+		}
+		evs = append(evs, nodeh.Rec(row, s.retr, TS(1)))
+	}
+	if withWM {
+		evs = append(evs, nodeh.WM(TS(1)))
+	}
+	return evs
+}
+
+// gbInput: the input of a group-by case: a fixed script for the first indices, generated otherwise.
+func gbInput(rng *rand.Rand, id string, timed bool) []nodeh.Event {
+	if evs := fixedGroupBy(indexOfID(id), timed); evs != nil {
+		return evs
+	}
+	if timed {
+		return Gen(rng, timedOpts(rng, poolTGB(rng)))
+	}
+	return Gen(rng, baseOpts(rng, poolGB(rng)))
 }
 
 // poolList: rows [k String, l List<Int>].
@@ -221,30 +313,45 @@ func genUnnest(rng *rand.Rand, id string) *Case {
 // ---- group by -------------------------------------------------------------------------------------
 
 func aggProtos() []func() nodes.Aggregate {
-	return []func() nodes.Aggregate{aggregates.NewCountPrototype(), aggregates.NewSumIntPrototype()}
+	return []func() nodes.Aggregate{aggregates.NewCountPrototype(), aggregates.NewSumIntPrototype(), aggregates.NewMinPrototype(),
+		aggregates.NewMaxPrototype(), aggregates.NewAverageIntPrototype()}
+}
+
+// aggExprs: every aggregate of aggProtos reads column col.
+func aggExprs(col int) []execution.Expression {
+	return []execution.Expression{variable(col), variable(col), variable(col), variable(col), variable(col)}
+}
+
+func aggSpecs(col int) []AggSpec {
+	return []AggSpec{{"count", col}, {"sum", col}, {"min", col}, {"max", col}, {"avg", col}}
+}
+
+const sqlAggs = "COUNT(*) AS c, SUM(v) AS s, MIN(v) AS mn, MAX(v) AS mx, AVG(v) AS av, COUNT(v) AS cv"
+
+func sqlAggSpecs(col int) []AggSpec {
+	return []AggSpec{{"count_star", 0}, {"sum", col}, {"min", col}, {"max", col}, {"avg", col}, {"count", col}}
 }
 
 func genSimpleGroupBy(rng *rand.Rand, id string) *Case {
-	pool := poolKV(rng)
 	global := rng.Intn(4) == 0
-	variant := "key=k count(v),sum(v)"
+	variant := "key=k count,sum,min,max,avg(v)"
 	keyCols := []int{0}
 	if global {
-		variant = "key=() count(v),sum(v)"
+		variant = "key=() count,sum,min,max,avg(v)"
 		keyCols = []int{}
 	}
 	return &Case{
 		ID: id, Kind: "simple_group_by", Variant: variant,
-		Inputs: [][]nodeh.Event{Gen(rng, baseOpts(rng, pool))},
+		Inputs: [][]nodeh.Event{gbInput(rng, id, false)},
 		Build: func(s []execution.Node) execution.Node {
 			ke := []execution.Expression{}
 			for _, kc := range keyCols {
 				ke = append(ke, variable(kc))
 			}
-			return nodes.NewSimpleGroupBy(aggProtos(), []execution.Expression{variable(1), variable(1)}, ke, s[0])
+			return nodes.NewSimpleGroupBy(aggProtos(), aggExprs(1), ke, s[0])
 		},
 		Ref: func(in []Rel) nodeh.Multiset {
-			return RefGroupBy(in[0], keyCols, []AggSpec{{"count", 1}, {"sum", 1}})
+			return RefGroupBy(in[0], keyCols, aggSpecs(1))
 		},
 		Meta: Meta{EmitsAtEnd: true, KeyTimeIdx: -1},
 	}
@@ -351,12 +458,12 @@ func genCTGB(which string) func(rng *rand.Rand, id string) *Case {
 		vcol := 1
 		kti := -1
 		if timed {
-			in = Gen(rng, timedOpts(rng, poolTKV(rng)))
+			in = gbInput(rng, id, true)
 			keyCols = []int{0, 1}
 			vcol = 2
 			kti = 0
 		} else {
-			in = Gen(rng, baseOpts(rng, poolKV(rng)))
+			in = gbInput(rng, id, false)
 		}
 		variant := trig.String()
 		if timed {
@@ -372,10 +479,10 @@ func genCTGB(which string) func(rng *rand.Rand, id string) *Case {
 				for _, kc := range keyCols {
 					ke = append(ke, variable(kc))
 				}
-				return nodes.NewCustomTriggerGroupBy(aggProtos(), []execution.Expression{variable(vcol), variable(vcol)}, ke, kti, s[0], trig.prototype(0))
+				return nodes.NewCustomTriggerGroupBy(aggProtos(), aggExprs(vcol), ke, kti, s[0], trig.prototype(0))
 			},
 			Ref: func(in []Rel) nodeh.Multiset {
-				return RefGroupBy(in[0], keyCols, []AggSpec{{"count", vcol}, {"sum", vcol}})
+				return RefGroupBy(in[0], keyCols, aggSpecs(vcol))
 			},
 			Meta: Meta{CTGB: true, KeyTimeIdx: kti, Trigger: trig.String()},
 		}
@@ -571,11 +678,11 @@ func genSQLGroupByCounting(rng *rand.Rand, id string) *Case {
 	trig := randomTrigger(rng, []string{"counting", "multi"}[rng.Intn(2)], false)
 	return &Case{
 		ID: id, Kind: "sql/group_by", Variant: trig.String(),
-		Inputs: [][]nodeh.Event{Gen(rng, baseOpts(rng, poolKV(rng)))},
-		SQL:    "SELECT k, COUNT(*) AS c, SUM(v) AS s FROM m.t GROUP BY k TRIGGER " + trig.sql(),
+		Inputs: [][]nodeh.Event{gbInput(rng, id, false)},
+		SQL:    "SELECT k, " + sqlAggs + " FROM m.t GROUP BY k TRIGGER " + trig.sql(),
 		Tables: []TableSpec{{Name: "t", Fields: kvFields("v"), TimeField: -1, Input: 0}},
 		Ref: func(in []Rel) nodeh.Multiset {
-			return RefGroupBy(in[0], []int{0}, []AggSpec{{"count_star", 0}, {"sum", 1}})
+			return RefGroupBy(in[0], []int{0}, sqlAggSpecs(1))
 		},
 		Meta: Meta{CTGB: true, KeyTimeIdx: -1, Trigger: trig.String()},
 	}
@@ -585,11 +692,11 @@ func genSQLGroupByTime(rng *rand.Rand, id string) *Case {
 	trig := randomTrigger(rng, []string{"watermark", "multi", "counting"}[rng.Intn(3)], true)
 	return &Case{
 		ID: id, Kind: "sql/group_by_time", Variant: trig.String(),
-		Inputs: [][]nodeh.Event{Gen(rng, timedOpts(rng, poolTKV(rng)))},
-		SQL:    "SELECT t, k, COUNT(*) AS c, SUM(v) AS s FROM m.t GROUP BY t, k TRIGGER " + trig.sql(),
+		Inputs: [][]nodeh.Event{gbInput(rng, id, true)},
+		SQL:    "SELECT t, k, " + sqlAggs + " FROM m.t GROUP BY t, k TRIGGER " + trig.sql(),
 		Tables: []TableSpec{{Name: "t", Fields: tkvFields("v"), TimeField: 0, Input: 0}},
 		Ref: func(in []Rel) nodeh.Multiset {
-			return RefGroupBy(in[0], []int{0, 1}, []AggSpec{{"count_star", 0}, {"sum", 2}})
+			return RefGroupBy(in[0], []int{0, 1}, sqlAggSpecs(2))
 		},
 		Meta: Meta{CTGB: true, KeyTimeIdx: 0, Trigger: trig.String()},
 	}
@@ -711,7 +818,7 @@ func genSQLTumbleGroupBy(rng *rand.Rand, id string) *Case {
 	trig := randomTrigger(rng, []string{"watermark", "multi", "counting"}[rng.Intn(3)], true)
 	return &Case{
 		ID: id, Kind: "sql/tumble>group_by", Variant: fmt.Sprintf("window=%ds %s", w, trig),
-		Inputs: [][]nodeh.Event{Gen(rng, timedOpts(rng, poolTKV(rng)))},
+		Inputs: [][]nodeh.Event{Gen(rng, timedOpts(rng, poolTGB(rng)))},
 		SQL: fmt.Sprintf("SELECT window_end, k, COUNT(*) AS c, SUM(v) AS s FROM tumble(source=>TABLE(m.t), window_length=>INTERVAL %d SECONDS) x GROUP BY window_end, k TRIGGER %s",
 			w, trig.sql()),
 		Tables: []TableSpec{{Name: "t", Fields: tkvFields("v"), TimeField: 0, Input: 0}},
